@@ -1,0 +1,64 @@
+//go:build verif
+
+// Contracts for the verification machinery in /verif (comment-only; never compiled into a binary).
+
+package util
+
+// Property C14: the declared batch amounts read from a resource list (extended_resource.go). A missing entry is
+// reported as -1; a present one as its integer value (batch-cpu is counted in milli-cores, batch-memory in bytes).
+
+//@ func GetBatchMilliCPUFromResourceList [C14]
+//@   ensures #fn: result == (has(r, extension.BatchCPU) ? r[extension.BatchCPU].Value() : 0 - 1)
+//@   modifies nothing
+
+//@ func GetBatchMemoryFromResourceList [C14]
+//@   ensures #fn: result == (has(r, extension.BatchMemory) ? r[extension.BatchMemory].Value() : 0 - 1)
+//@   modifies nothing
+
+// Property C09: quantity scaling helpers (resource.go). The scaled amount is the product of the integer milli / unit count
+// (Quantity.MilliValue() / Value(), rounded up) with the factor, truncated towards zero; so for a non-negative quantity and
+// factor it is non-negative and never exceeds the exact product.
+
+//@ func MultiplyMilliQuant [C09]
+//@   ensures #def: result == real(trunc(real(quant.MilliValue()) * factor)) / 1000
+//@   ensures #nonneg: quant >= 0 && factor >= 0 ==> result >= 0
+//@   ensures #le: quant >= 0 && factor >= 0 ==> 1000 * result <= real(quant.MilliValue()) * factor
+//@   ensures #le_exact: quant >= 0 && factor >= 0 && 1000 * quant == real(quant.MilliValue()) ==> result <= quant * factor
+//@   modifies nothing
+
+//@ func MultiplyQuant [C09]
+//@   ensures #def: result == real(trunc(real(quant.Value()) * factor))
+//@   ensures #nonneg: quant >= 0 && factor >= 0 ==> result >= 0
+//@   ensures #le: quant >= 0 && factor >= 0 ==> result <= real(quant.Value()) * factor
+//@   ensures #le_exact: quant >= 0 && factor >= 0 && quant == real(quant.Value()) ==> result <= quant * factor
+//@   modifies nothing
+
+//@ func NewZeroResourceList [C09]
+//@   ensures #fresh: fresh(result)
+//@   ensures #keys: forall n corev1.ResourceName :: {has(result, n)} has(result, n) <==> (n == corev1.ResourceCPU || n == corev1.ResourceMemory)
+//@   ensures #zero: forall n corev1.ResourceName :: {val(result, n)} val(result, n) == 0
+//@   modifies nothing
+
+//@ func MinQuant [C09]
+//@   ensures #min: result == min(quant1, quant2)
+//@   modifies nothing
+
+// Property C20: MergeCfg overlays the fields set in `new` onto `old` by a JSON round trip (reflection; not verifiable here).
+// ASSUMED: for two non-nil pointers to the same strategy type the call succeeds and the result is the overlay of the
+// two objects, modelled as an uninterpreted function spec_ov*(base, patch) of the two pointers (lib/C20.spec). In
+// reality the overlay is written into *old and old itself is returned; at every call site under C20 `old` is a DeepCopy
+// made just before the call and not used afterwards (checked there by call-site assertions), so treating the result as
+// a new abstract object is harmless.
+// One field is described exactly: SystemStrategy.TotalNetworkBandwidth is a NON-pointer resource.Quantity, `omitempty` never
+// omits a struct, so json.Marshal(new) always carries it and the result always has new's value (also when new left it unset).
+//@ import slov1alpha1 "github.com/koordinator-sh/koordinator/apis/slo/v1alpha1"
+//@ func MergeCfg [C20]
+//@   ensures typeis(arg0, *slov1alpha1.ResourceThresholdStrategy) && typeis(arg1, *slov1alpha1.ResourceThresholdStrategy) && payload(arg0, *slov1alpha1.ResourceThresholdStrategy) != nil && payload(arg1, *slov1alpha1.ResourceThresholdStrategy) != nil ==> result1 == nil && typeis(result0, *slov1alpha1.ResourceThresholdStrategy) && payload(result0, *slov1alpha1.ResourceThresholdStrategy) == spec_ovThr(payload(arg0, *slov1alpha1.ResourceThresholdStrategy), payload(arg1, *slov1alpha1.ResourceThresholdStrategy)) && payload(result0, *slov1alpha1.ResourceThresholdStrategy) != nil
+//@   ensures typeis(arg0, *slov1alpha1.ResourceQOSStrategy) && typeis(arg1, *slov1alpha1.ResourceQOSStrategy) && payload(arg0, *slov1alpha1.ResourceQOSStrategy) != nil && payload(arg1, *slov1alpha1.ResourceQOSStrategy) != nil ==> result1 == nil && typeis(result0, *slov1alpha1.ResourceQOSStrategy) && payload(result0, *slov1alpha1.ResourceQOSStrategy) == spec_ovQOS(payload(arg0, *slov1alpha1.ResourceQOSStrategy), payload(arg1, *slov1alpha1.ResourceQOSStrategy)) && payload(result0, *slov1alpha1.ResourceQOSStrategy) != nil
+//@   ensures typeis(arg0, *slov1alpha1.CPUBurstStrategy) && typeis(arg1, *slov1alpha1.CPUBurstStrategy) && payload(arg0, *slov1alpha1.CPUBurstStrategy) != nil && payload(arg1, *slov1alpha1.CPUBurstStrategy) != nil ==> result1 == nil && typeis(result0, *slov1alpha1.CPUBurstStrategy) && payload(result0, *slov1alpha1.CPUBurstStrategy) == spec_ovBurst(payload(arg0, *slov1alpha1.CPUBurstStrategy), payload(arg1, *slov1alpha1.CPUBurstStrategy)) && payload(result0, *slov1alpha1.CPUBurstStrategy) != nil
+//@   ensures typeis(arg0, *slov1alpha1.SystemStrategy) && typeis(arg1, *slov1alpha1.SystemStrategy) && payload(arg0, *slov1alpha1.SystemStrategy) != nil && payload(arg1, *slov1alpha1.SystemStrategy) != nil ==> result1 == nil && typeis(result0, *slov1alpha1.SystemStrategy) && payload(result0, *slov1alpha1.SystemStrategy) == spec_ovSys(payload(arg0, *slov1alpha1.SystemStrategy), payload(arg1, *slov1alpha1.SystemStrategy)) && payload(result0, *slov1alpha1.SystemStrategy) != nil && payload(result0, *slov1alpha1.SystemStrategy).TotalNetworkBandwidth == payload(arg1, *slov1alpha1.SystemStrategy).TotalNetworkBandwidth
+// The overlay object of a SystemStrategy merge is additionally assumed to be a NEW object (in reality it is `old`, the copy made
+// just before the call, hence distinct from every other strategy object): needed because mergeSystemStrategy writes into it.
+//@   ensures typeis(arg0, *slov1alpha1.SystemStrategy) && typeis(arg1, *slov1alpha1.SystemStrategy) && payload(arg0, *slov1alpha1.SystemStrategy) != nil && payload(arg1, *slov1alpha1.SystemStrategy) != nil ==> fresh(payload(result0, *slov1alpha1.SystemStrategy))
+//@   modifies nothing
+//@   option trusted
